@@ -1008,3 +1008,23 @@ def iobuf_get(ip, st, ci):
         st.F.add_ge(pos[1])
         st.F.add_ge(total - (pos[1] + 1) * b[3])
     return mk_inout(ip.br(b[1], pos[1] * b[3], b[3]), ip.br(b[2], pos[1] * b[3], b[3]))
+
+
+@prim("core::slice::<impl [T]>::swap")
+def slice_swap(ip, st, ci):
+    tg = tg_of(ci["args"][0])
+    i, j = ci["args"][1], ci["args"][2]
+    esz = ip.sizeof(crate(ci), fn_targs(ci)[0])
+    total = ip.tlen(st, tg)
+    for x in (i, j):
+        ok = st.F.prove_ge(x[1]) and st.F.prove_ge(total - (x[1] + 1) * esz)
+        oblig(st, ci, "bounds:swap", ok, "%r < %r/%r" % (x[1], total, esz))
+        if not ok:
+            st.F.add_ge(x[1])
+            st.F.add_ge(total - (x[1] + 1) * esz)
+    a = ip.br(tg, i[1] * esz, esz)
+    b = ip.br(tg, j[1] * esz, esz)
+    va, vb = ip.load(st, a), ip.load(st, b)
+    ip.store(st, a, vb)
+    ip.store(st, b, va)
+    return vunit()
